@@ -485,6 +485,9 @@ class Checker:
                         if g == ZERO or (g == NA and w == NA): continue
                         if g == NA or join(g, w) is None: self.fail(st, 'returned value %d has rate degree %s, contract says %s' % (k, show(g), show(w)))
             self.stmt_obligation(st, 'return'); return
+        if isinstance(st, ast.Assert):
+            # an assertion must fire for both runs or for neither: its condition is held to the rule for branch conditions
+            self.cond(st.test); self.stmt_obligation(st, 'assert-condition-invariant'); return
         if isinstance(st, ast.If):
             self.cond(st.test); self.stmt_obligation(st, 'branch-condition-invariant')
             self.run_block(st.body); self.run_block(st.orelse); return
